@@ -2,7 +2,8 @@
    request.  Property theorems only; each is closed by [exact] of a lemma of
    C15/Lemmas.v and followed by its assumptions.
 
-   vc_pod_request   : model of volcano GetPodResourceRequest (= TaskInfo.Resreq / InitResreq)
+   vc_pod_request   : model of volcano GetPodResourceRequest (= api.NewTaskInfo's Resreq / InitResreq;
+                      the scheduler cache's TaskInfo adds CSI volume counts: the cache_task definitions)
    k8s_pod_requests : model of k8s.io/component-helpers/resource.PodRequests with the
                       options kube-scheduler derives from the feature gates (opts_of)
    new_resource     : volcano's NewResource unit rule, add_scalar _ pods 1 : AddScalar("pods", 1) *)
@@ -65,7 +66,8 @@ Print Assumptions C15_law_reservation_is_the_relation.
    lookups resolve to: the charged vector is upstream's request + pods with
    [keys] counted on top -- so it EXCEEDS upstream's PodRequests on exactly the
    attach-limit names (kube-scheduler accounts volume limits in a separate
-   plugin, not in the pod request). *)
+   plugin, not in the pod request).  As in C15_task_reservation_eq_upstream the
+   argument m is unused by the definitions (phantom quantifier). *)
 Theorem C15_cache_reservation_eq_upstream : forall tracked plsup ippvs plr ippl dra keys m p,
   pod_ok tracked plsup p ->
   let up1 := add_scalar (new_resource tracked (k8s_pod_requests plsup (opts_of ippvs plr ippl dra) p)) pods_name 1 in
@@ -127,34 +129,63 @@ Theorem C15_law_not_less_is_the_relation : forall up vc,
 Proof. exact law_not_less_spec. Qed.
 Print Assumptions C15_law_not_less_is_the_relation.
 
-(* THE NODE LEDGER: for every list of resident pods (each with its resolved
-   volume names and lifecycle position) the sum the cache charges is the sum of
-   upstream's requests (+ pods + volumes); by induction over the list. *)
-Theorem C15_node_used_eq_upstream : forall tracked plsup ippvs plr ippl dra (rs : list (list positive * pod_meta * pod)),
-  Forall (fun x => pod_ok tracked plsup x.2) rs ->
-  node_used (map (fun x => cache_task_resreq tracked plsup ippvs plr ippl dra x.1.1 x.1.2 x.2) rs) =
-  node_used (map (fun x => cache_add_csi
-                 (add_scalar (new_resource tracked (k8s_pod_requests plsup (opts_of ippvs plr ippl dra) x.2)) pods_name 1)
-                 x.1.1) rs).
-Proof. exact node_used_eq_upstream. Qed.
-Print Assumptions C15_node_used_eq_upstream.
+(* the lookup-error outcome of SchedulerCache.NewTaskInfo (a PVC not yet in the
+   informer, an ephemeral volume's claim not owned by the pod): nothing is counted,
+   the task that addPod still adds on a pending-PVC error carries upstream's request + pods *)
+Theorem C15_cache_error_outcome_eq_upstream : forall tracked plsup ippvs plr ippl dra m p,
+  pod_ok tracked plsup p ->
+  let up1 := add_scalar (new_resource tracked (k8s_pod_requests plsup (opts_of ippvs plr ippl dra) p)) pods_name 1 in
+  cache_task_resreq_o tracked plsup ippvs plr ippl dra None m p = up1 /\
+  cache_task_best_effort_o tracked plsup ippvs plr ippl dra None m p = is_empty 1 up1.
+Proof. exact cache_error_outcome_eq_upstream. Qed.
+Print Assumptions C15_cache_error_outcome_eq_upstream.
+
+(* WHICH UPSTREAM COMPUTATION AT WHICH POINT.  A pod ON a node is counted by
+   PodInfo.CalculateResource (opts_of, status-aware): the theorems above.  The pod
+   BEING PLACED is computed by the fit plugin / kubelet admission with the status
+   options off (opts_incoming; noderesources/fit.go 321-327).  volcano has ONE value
+   for both.  It equals the incoming computation for every pod that carries no
+   resize information (no container / init-container status, no status.resources:
+   what a pod has before a kubelet started it) ... *)
+Theorem C15_incoming_request_eq_upstream : forall tracked plsup ippvs plr ippl dra keys m p,
+  pod_ok tracked plsup p -> no_resize_info p ->
+  cache_task_init_resreq tracked plsup ippvs plr ippl dra keys m p =
+  cache_add_csi (add_scalar (new_resource tracked (k8s_pod_requests plsup (opts_incoming plr dra) p)) pods_name 1) keys.
+Proof. exact incoming_request_eq_upstream. Qed.
+Print Assumptions C15_incoming_request_eq_upstream.
+
+(* ... and it differs otherwise: spec cpu 1, status.resources cpu 2 (pod_ok):
+   InitResreq 2000m, the incoming computation 1000m, the resident computation
+   2000m.  For such a pod volcano can deny a node upstream would place it on
+   ("never denied a node where it fits" fails); declared, not a finding: statuses
+   exist only after a kubelet started the pod, when the resident computation applies. *)
+Theorem C15_incoming_request_refuted :
+  exists p, pod_ok all_tracked huge_only p /\
+    cpu (cache_task_init_resreq all_tracked huge_only true true true false [] (mkMeta 1 false false) p) = 2000 /\
+    cpu (new_resource all_tracked (k8s_pod_requests huge_only (opts_incoming true false) p)) = 1000 /\
+    cpu (new_resource all_tracked (k8s_pod_requests huge_only (opts_of true true true false) p)) = 2000.
+Proof. exact incoming_request_refuted. Qed.
+Print Assumptions C15_incoming_request_refuted.
 
 (* COROLLARY BY CONGRUENCE ONLY (second sentence of the property): volcano's
-   comparison "InitResreq of the new pod <= allocatable - sum charged to the
-   residents" answers the same on volcano's vectors and on upstream's.  Kubelet
-   admission, the predicates plugin and NodeInfo's status-dependent accounting
-   are NOT modelled; see docs/notes/C15.md "Audit answers" W2. *)
-Theorem C15_node_fits_iff : forall tracked plsup ippvs plr ippl dra rs alloc eps d keys m p,
-  Forall (fun x => pod_ok tracked plsup x.2) rs -> pod_ok tracked plsup p ->
+   comparison "InitResreq of the new pod <= allocatable - sum of Resreq of the
+   residents" answers the same on volcano's vectors and on upstream's (incoming
+   computation for the new pod, resident computation for the residents).  It
+   follows from the per-pod equalities by rewriting under the same fold; it says
+   nothing about NodeInfo.AddTask's status-dependent ledgers, the predicates
+   plugin or kubelet admission, none of which is modelled. *)
+Theorem C15_node_fits_iff_incoming : forall tracked plsup ippvs plr ippl dra rs alloc eps d keys m p,
+  Forall (fun x => pod_ok tracked plsup x.2) rs -> pod_ok tracked plsup p -> no_resize_info p ->
   less_equal eps (cache_task_init_resreq tracked plsup ippvs plr ippl dra keys m p)
     (sub alloc (node_used (map (fun x => cache_task_resreq tracked plsup ippvs plr ippl dra x.1.1 x.1.2 x.2) rs))) d =
   less_equal eps
-    (cache_add_csi (add_scalar (new_resource tracked (k8s_pod_requests plsup (opts_of ippvs plr ippl dra) p)) pods_name 1) keys)
+    (cache_add_csi (add_scalar (new_resource tracked (k8s_pod_requests plsup (opts_incoming plr dra) p)) pods_name 1) keys)
     (sub alloc (node_used (map (fun x => cache_add_csi
                  (add_scalar (new_resource tracked (k8s_pod_requests plsup (opts_of ippvs plr ippl dra) x.2)) pods_name 1)
                  x.1.1) rs))) d.
-Proof. exact node_fits_iff. Qed.
-Print Assumptions C15_node_fits_iff.
+Proof. exact node_fits_iff_incoming. Qed.
+Print Assumptions C15_node_fits_iff_incoming.
+
 
 
 (* the executable law evaluated on the Go results is this relation, and it
@@ -199,13 +230,31 @@ Print Assumptions C15_dra_claims_refuted_before_fix.
 
 (* --- each hypothesis of pod_ok is necessary: the faithful models differ without it --- *)
 
-(* amounts finer than milli-cpu: per-container rounding vs rounding of the sum *)
+(* amounts finer than milli-cpu (not API-admissible after defaulting; the admissible
+   off-grid case is fractional memory, below): per-container rounding vs rounding of the sum *)
 Theorem C15_off_grid_refuted :
   exists p,
     cpu (vc_pod_request all_tracked huge_only true true true false p) = 2 /\
     cpu (new_resource all_tracked (k8s_pod_requests huge_only (opts_of true true true false) p)) = 1.
 Proof. exact off_grid_refuted. Qed.
 Print Assumptions C15_off_grid_refuted.
+
+(* fractional bytes of memory (admitted by the API server): 2 x memory 500m *)
+Theorem C15_fractional_memory_refuted :
+  exists p, ~ pod_ok all_tracked huge_only p /\
+    mem (vc_pod_request all_tracked huge_only true true true false p) = 2 /\
+    mem (new_resource all_tracked (k8s_pod_requests huge_only (opts_of true true true false) p)) = 1.
+Proof. exact fractional_memory_refuted. Qed.
+Print Assumptions C15_fractional_memory_refuted.
+
+(* inside pod_ok, but in kube's units: ephemeral-storage 1500m is 1500 for
+   volcano and Value() = 2 for kube (the whole_units premise is necessary) *)
+Theorem C15_kube_units_fractional_refuted :
+  exists p, pod_ok all_tracked huge_only p /\
+    sget (vc_pod_request all_tracked huge_only true true true false p) eph_name = 1500 /\
+    kube_value (k8s_pod_requests huge_only (opts_of true true true false) p) eph_name = 2.
+Proof. exact kube_units_fractional_refuted. Qed.
+Print Assumptions C15_kube_units_fractional_refuted.
 
 Theorem C15_status_name_collision_refuted :
   exists p,
